@@ -55,7 +55,23 @@ def units():
     # ports called like the flat instances elaboration makes of the array (`units_0`, `units_1`, ...)
     EF = h.ExternalModule(name="UF", port_list=[h.Inout(name="a"), h.Inout(name="units_0"), h.Inout(name="units_1"),
                                                 h.Inout(name="i_0")], desc="", domain="u")
-    return [("EI", lambda: EI(), ["i", "o", "units"]), ("EF", lambda: EF(), ["a", "units_0", "units_1", "i_0"]),
+    # a unit with a bundle-valued port next to its signal ports - as written, and already elaborated (bundle flattened)
+    def bmod(pre):
+        def mk():
+            UB = h.Bundle(name="UnitB")
+            UB.add(h.Signal(name="x"))
+            UB.add(h.Signal(name="y", width=2))
+            m = h.Module(name="BUnit")
+            m.a, m.z = h.Port(), h.Port()
+            m.bb = UB(port=True)
+            m.e = h.ExternalModule(name="U4b", port_list=[h.Inout(name="p"), h.Inout(name="q"), h.Inout(name="r", width=2),
+                                                        h.Inout(name="s")], desc="", domain="u")()(p=m.a, q=m.bb.x, r=m.bb.y, s=m.z)
+            if pre:
+                h.elaborate(m)
+            return m
+        return mk
+    return [("BMod", bmod(False), ["a", "z"]), ("BModE", bmod(True), ["a", "z"]),
+            ("EI", lambda: EI(), ["i", "o", "units"]), ("EF", lambda: EF(), ["a", "units_0", "units_1", "i_0"]),
             ("R", lambda: h.R(r=1), ["p", "n"]), ("Nmos", lambda: h.Nmos(), ["d", "g", "s", "b"]),
             ("E3", lambda: E3(), ["a", "b", "c"]), ("Mod", lambda: Mod, ["x", "y"]),
             ("EU", lambda: EU(), ["a", "z", "_sub"])]
@@ -84,12 +100,24 @@ def check_series(case):
         m = Series(unit=unit, conns=conns, nser=n)
     except Exception as e:
         return (f"series.raises.{type(e).__name__}", f"{case!r}: {type(e).__name__}: {str(e)[:140]}", w)
-    names = list(m.ports)
-    if sorted(names) != sorted(uports):
-        return ("post.ports", f"{case!r}: ports {names} != unit ports {list(uports)}", w)
+    # the unit's ports as it defines them (signal and bundle valued), and as they are exported (bundles flattened)
+    defined = getattr(unit, "_pre_flattening_io", None)
+    defined = dict(defined) if defined is not None else dict(list(unit.ports.items()) + list(getattr(unit, "bundle_ports", {}).items()))
+    names = list(m.ports) + list(m.bundle_ports)
+    if sorted(names) != sorted(defined):
+        return ("post.ports", f"{case!r}: ports {names} != unit ports {list(defined)}", w)
     for pn, p in m.ports.items():
-        if p.width != uports[pn].width:
-            return ("post.port-width", f"{case!r}: port {pn} width {p.width} != {uports[pn].width}", w)
+        if p.width != defined[pn].width:
+            return ("post.port-width", f"{case!r}: port {pn} width {p.width} != {defined[pn].width}", w)
+    if isinstance(unit, h.Module) and (getattr(unit, "bundle_ports", None) or getattr(unit, "_pre_flattening_io", None)):
+        twin = h.to_proto(mk())
+        tm = twin.modules[-1]
+        tw = {s_.name: s_.width for s_ in tm.signals}
+
+        class _P:
+            def __init__(self, width):
+                self.width = width
+        uports = {p_.signal: _P(tw[p_.signal]) for p_ in tm.ports}
     try:
         pkg = h.to_proto(m)
     except Exception as e:
